@@ -20,6 +20,7 @@ META = {
     "assumptions": ["Iterator::any/all/filter/map/enumerate have their documented semantics"],
     "not_decided": ["Boolean-algebra identities over all formulas (follow from R1/R3 only)"],
 }
+META["explanation"] += ' R9 the `@` marker is exact: every boolean predicate on Pointer.path is equality with the constant Pointer::empty stores.'
 
 Q = "crate::query::Query"
 M = "crate::parser::model::"
